@@ -8,7 +8,7 @@
 //   <I|T> <seed> <rows> <patch> <team size> <slots>
 //   S <cats> <nsyms> { <cat> <f|b|t|p|q|n> <weight> <nargs> <argcat>... }
 //   O { N k | M k pgmhex | F k t | X a b k | B k idx cat |
-//       R k idx cat symid parhex nargs args... | D k idx | C k | A k | W k }
+//       R k idx cat symid parhex nargs args... | D k idx | C k | A k | W k | E rows patch }
 // output, one line per case:
 //   W <cat wheels> ; <draws> # <count> # <dump> ; ...
 #include <bits/stdc++.h>
@@ -180,6 +180,15 @@ template<class T> std::string run_case(ctx &cx, const std::vector<std::string> &
     std::string extra("-");
     unsigned k(0);
     draws.clear();
+    if (op == "E")
+    {
+      // the same problem object reused with another code / patch length
+      cx.prob.env.mep.code_length = U(pos);
+      cx.prob.env.mep.patch_length = U(pos + 1);
+      pos += 2;
+      out += " ;  # - # E";
+      continue;
+    }
     if (op == "N")
     {
       k = U(pos++);
